@@ -301,3 +301,37 @@ def gen_convnd(e):
             bias = None if i % 3 == 0 else tensor(rng, [cout], "float32", kind="rand")
             yield [tensor(rng, x_sh, "float32", kind="rand"), tensor(rng, w_sh, "float32", kind="rand"), bias, st, pd, dl, groups], {}
     return gen
+
+
+# ----------------------------------------------------------------------------- upsample output extents
+
+_SCALES = (2.0, 1.5, 0.5, 3.0, 1.25, 2.5, 1.16, 2.12, 1.7, 0.75)
+
+
+def gen_upsample(e, vec, align=False):
+    """non-vec: (x, output_size, [align_corners,] scale per spatial dim or None) with output_size = floor(n * scale) as
+    F.interpolate passes it (so PyTorch and a correct scales path agree), or an unrelated size; vec: (x, size | None, scale_factors | None)"""
+    import math
+
+    def gen(rng, n):
+        for i in range(n):
+            ee = e or rng.choice([1, 2])
+            sp = [rng.choice([4, 5, 7, 25, 30]) if i % 5 == 0 else rng.randint(2, 9) for _ in range(ee)]
+            x = tensor(rng, [1, rng.randint(1, 2)] + sp, "float32", kind="rand")
+            sc = [rng.choice(_SCALES) for _ in range(ee)]
+            size = [max(1, math.floor(m * s)) for m, s in zip(sp, sc)]
+            if vec:
+                yield ([x, size, None] if i % 3 == 0 else [x, None, sc]), {}
+                continue
+            k = i % 6
+            if k == 0:
+                scs = [None] * ee
+            elif k == 1 and ee > 1:
+                scs = [sc[0]] + [None] * (ee - 1)                      # not all given: output_size decides
+            elif k == 2:
+                size = [s + 1 for s in size]                             # a size the scales do not produce
+                scs = sc
+            else:
+                scs = sc
+            yield ([x, size] + ([bool(i % 2)] if align else []) + scs), {}
+    return gen
